@@ -358,3 +358,224 @@ Example sp_not_printable :
   printable sp_demo_pp (fun _ => true)
     (mkSS None [mkSP "Start" [] [] [(0, SChoice [PText "Go"] "P" "1 +" None true [])]; mkSP "P" [mkParam "x" None] [] []]) = false.
 Proof. vm_compute. repeat split. Qed.
+
+(* =========================================================================================== *)
+(* FULL passage-level theorem: the two whitespace normalisations stated on SOURCE lines (Sem/ReferenceWs.v) *)
+(* =========================================================================================== *)
+From Bardic Require Import ReferenceWs.
+From Bardic Require ReferenceNewlines ReferenceNewlinesPrint.
+
+Module ExactNewlines.
+(* ===== text proposed for Props/C01.v (after demo_normalisation) ===== *)
+
+(* FULL at passage level, on SOURCE LINES: the compiled content of every passage body without @join markers
+   renders to the reference meaning of its lines after the two documented normalisations stated on the lines
+   themselves (Sem/ReferenceWs.v: collapse_blanks = blank lines next to an @if block, trim_end = the end of the
+   passage) - same text, character for character, same state, jump and directives.  proper_lines: the top-level
+   text lines are lines of a .bard file (at least one piece, no piece that is a bare line break). *)
+Theorem passage_content_reference_meaning : forall orc ctxkeys body s,
+  forallb (fun it => negb (is_join it)) body = true -> proper_lines body = true ->
+  render_content orc ctxkeys (top_content body) s = sem_items_ws orc ctxkeys body s.
+Proof. exact ReferenceNewlines.passage_content_meaning_ws. Qed.
+Print Assumptions passage_content_reference_meaning.
+
+(* ... and for EVERY AST without @join markers, read as lines first (canon_lines: a bare line-break piece breaks
+   the line, a line without pieces is a blank line, or nothing when glued) *)
+Theorem passage_content_meaning_any_ast : forall orc ctxkeys body s,
+  forallb (fun it => negb (is_join it)) body = true ->
+  render_content orc ctxkeys (top_content body) s = sem_items_ws_any orc ctxkeys body s.
+Proof. exact ReferenceNewlines.passage_content_meaning_ws_any. Qed.
+Print Assumptions passage_content_meaning_any_ast.
+
+Theorem reading_as_lines_changes_nothing_on_lines : forall orc ctxkeys body s,
+  proper_lines body = true -> sem_items_ws_any orc ctxkeys body s = sem_items_ws orc ctxkeys body s.
+Proof. exact ReferenceNewlines.sem_items_ws_any_proper. Qed.
+Print Assumptions reading_as_lines_changes_nothing_on_lines.
+
+(* the compiler's two token passes ARE the source-level rules: the compiled content is the compilation of the
+   normalised lines *)
+Theorem compiled_content_is_normalised_lines : forall body,
+  forallb (fun it => negb (is_join it)) body = true -> proper_lines body = true ->
+  top_content body = c_items (normalise_items (shown_lines body)).
+Proof. exact ReferenceNewlines.normalised_lines_compile. Qed.
+Print Assumptions compiled_content_is_normalised_lines.
+
+(* the source-level rules delete blank lines and nothing else *)
+Theorem normalisation_deletes_blank_lines_only : forall l, ReferenceNewlines.del_blank l (normalise_items l).
+Proof. exact ReferenceNewlines.normalise_del_blank. Qed.
+Print Assumptions normalisation_deletes_blank_lines_only.
+
+(* non-vacuity: runs of blank lines around two @if blocks, blank lines inside a branch (never touched), a hoisted
+   statement, trailing blank lines *)
+Definition ws_demo_body : list item :=
+  [IStmt "x = 1"; IText [PText "A"] true; IBlank; IBlank;
+   IIf [("x", [IText [PText "B"] false], [])]; IBlank; IBlank; IBlank;
+   IIf [("x", [IBlank; IBlank; IText [PText "C"] false; IBlank], [])]; IBlank; IBlank;
+   IText [PText "D"] false; IBlank; IBlank].
+Definition ws_demo_state : nstate := mkNS (mkCore None [("x"%string, VInt 1)] [] [] [] None) [] [].
+
+Example ws_demo_hypotheses :
+  forallb (fun it => negb (is_join it)) ws_demo_body = true /\ proper_lines ws_demo_body = true /\
+  top_content ws_demo_body <> top_content_raw ws_demo_body 0.
+Proof. split; [reflexivity|split; [reflexivity|vm_compute; discriminate]]. Qed.
+
+(* one of the two blank lines above the first block goes (N2), two of the three between the blocks (N1), none
+   above the text line D... the two at the end go because D ends in a newline (N3) *)
+Example ws_demo_normalised :
+  normalise_items (shown_lines ws_demo_body) =
+  [IText [PText "A"] true; IBlank;
+   IIf [("x", [IText [PText "B"] false], [])]; IBlank;
+   IIf [("x", [IBlank; IBlank; IText [PText "C"] false; IBlank], [])]; IBlank;
+   IText [PText "D"] false].
+Proof. vm_compute. reflexivity. Qed.
+
+Example ws_demo_text :
+  render_content demo_orc [] (top_content ws_demo_body) ws_demo_state =
+  (ws_demo_state, Ok ("A" ++ nl ++ "B" ++ nl ++ nl ++ nl ++ nl ++ "C" ++ nl ++ nl ++ nl ++ "D" ++ nl, None, [])) /\
+  sem_items_ws demo_orc [] ws_demo_body ws_demo_state =
+  render_content demo_orc [] (top_content ws_demo_body) ws_demo_state.
+Proof.
+  split; [vm_compute; reflexivity|]. symmetry. apply passage_content_reference_meaning; apply ws_demo_hypotheses.
+Qed.
+
+(* proper_lines is needed for the rules on lines: a line that is only `<>` shows nothing and ends nothing, so the
+   compiler sees the blank line above it as standing directly above the @if (replayed on the real compiler:
+   "A", "", "<>", "@if x:", "    B", "@endif" compiles to  A \n <conditional>  and shows "A\nB\n") *)
+Definition ws_glue_only_body : list item :=
+  [IText [PText "A"] false; IBlank; IText [] true; IIf [("x", [IText [PText "B"] false], [])]].
+Example proper_lines_needed_glue_only_line :
+  forallb (fun it => negb (is_join it)) ws_glue_only_body = true /\ proper_lines ws_glue_only_body = false /\
+  render_content demo_orc [] (top_content ws_glue_only_body) ws_demo_state =
+    (ws_demo_state, Ok ("A" ++ nl ++ "B" ++ nl, None, [])) /\
+  sem_items_ws demo_orc [] ws_glue_only_body ws_demo_state =
+    (ws_demo_state, Ok ("A" ++ nl ++ nl ++ "B" ++ nl, None, [])) /\
+  sem_items_ws_any demo_orc [] ws_glue_only_body ws_demo_state =
+    (ws_demo_state, Ok ("A" ++ nl ++ "B" ++ nl, None, [])).
+Proof. vm_compute. repeat split. Qed.
+
+(* ... and a piece that is a bare line break (no .bard text has this AST) acts as a blank line *)
+Definition ws_nl_piece_body : list item :=
+  [IText [PText "A"] false; IText [PText nl] true; IIf [("x", [IText [PText "B"] false], [])]].
+Example proper_lines_needed_line_break_piece :
+  forallb (fun it => negb (is_join it)) ws_nl_piece_body = true /\ proper_lines ws_nl_piece_body = false /\
+  render_content demo_orc [] (top_content ws_nl_piece_body) ws_demo_state =
+    (ws_demo_state, Ok ("A" ++ nl ++ "B" ++ nl, None, [])) /\
+  sem_items_ws demo_orc [] ws_nl_piece_body ws_demo_state =
+    (ws_demo_state, Ok ("A" ++ nl ++ nl ++ "B" ++ nl, None, [])) /\
+  sem_items_ws_any demo_orc [] ws_nl_piece_body ws_demo_state =
+    (ws_demo_state, Ok ("A" ++ nl ++ "B" ++ nl, None, [])).
+Proof. vm_compute. repeat split. Qed.
+
+(* the rules are about @if only, and asymmetric: blank lines around an @for block all stay; above an @if at most
+   one goes, below an @if all but one go *)
+Example ws_for_untouched :
+  normalise_items [IText [PText "A"] false; IBlank; IBlank; IFor "i" "xs" [] []; IBlank; IBlank; IText [PText "D"] false]
+  = [IText [PText "A"] false; IBlank; IBlank; IFor "i" "xs" [] []; IBlank; IBlank; IText [PText "D"] false].
+Proof. vm_compute. reflexivity. Qed.
+Example ws_if_asymmetric :
+  normalise_items [IBlank; IBlank; IBlank; IIf []; IBlank; IBlank; IBlank; IText [PText "D"] true; IBlank; IBlank]
+  = [IBlank; IBlank; IIf []; IBlank; IText [PText "D"] true; IBlank].
+Proof. vm_compute. reflexivity. Qed.
+
+(* ===== text proposed for the string-level half of Props/C01.v (after printed_source_plays_with_the_reference_meaning) ===== *)
+
+(* the top-level text lines of a printable story are source lines *)
+Theorem printable_lines_are_source_lines : forall pp is_call s p,
+  printable pp is_call s = true -> In p (ss_passages s) -> proper_lines (sp_body p) = true.
+Proof. exact ReferenceNewlinesPrint.printable_proper_lines. Qed.
+Print Assumptions printable_lines_are_source_lines.
+
+(* composed: what the parser model makes of the printed text renders EXACTLY the reference meaning of the
+   normalised source lines (equality, where printed_source_plays_with_the_reference_meaning has
+   same_up_to_newlines) *)
+Theorem printed_source_plays_with_the_exact_reference_meaning : forall pp is_call s,
+  printable pp is_call s = true ->
+  exists st, ParseAllProofs.parse_real pp is_call (print_story s) = ParseBase.POk st /\
+    initial st = initial_of s /\
+    forall p, In p (ss_passages s) ->
+      exists cp, In (sp_name p, cp) (passages st) /\
+        choices cp = map (fun sc => c_choice (fst sc) (snd sc)) (sp_choices p) /\
+        (forall orc ctxkeys s0, exec_commands orc ctxkeys (execute cp) s0 = sem_enter orc ctxkeys (sp_body p) s0) /\
+        (forall orc ctxkeys s0, forallb (fun it => negb (is_join it)) (sp_body p) = true ->
+           render_content orc ctxkeys (content cp) s0 = sem_items_ws orc ctxkeys (sp_body p) s0).
+Proof. exact ReferenceNewlinesPrint.printed_story_reference_meaning_ws. Qed.
+Print Assumptions printed_source_plays_with_the_exact_reference_meaning.
+
+(* non-vacuity: the passage of ws_demo_body as a story; its printed text has the blank-line runs *)
+Definition sp_demo_ws : sstory :=
+  mkSS None [mkSP "Start" [] ws_demo_body [(0, SChoice [PText "Again"] "Start" "" None true [])]].
+Example sp_demo_ws_printed :
+  print_story sp_demo_ws =
+  [":: Start"; "~ x = 1"; "A<>"; ""; ""; "@if x:"; "    B"; "@endif"; ""; ""; ""; "@if x:"; ""; ""; "    C"; "";
+   "@endif"; ""; ""; "D"; ""; ""; "+ [Again] -> Start"].
+Proof. vm_compute. reflexivity. Qed.
+Example sp_demo_ws_printable : printable sp_demo_pp (fun _ => true) sp_demo_ws = true.
+Proof. vm_compute. reflexivity. Qed.
+Example sp_demo_ws_parsed_content :
+  match ParseAllProofs.parse_real sp_demo_pp (fun _ => true) (print_story sp_demo_ws) with
+  | ParseBase.POk st =>
+      match lookup "Start" (passages st) with
+      | Some cp => render_content demo_orc [] (content cp) ws_demo_state =
+                   sem_items_ws demo_orc [] ws_demo_body ws_demo_state
+      | None => False
+      end
+  | _ => False
+  end.
+Proof. vm_compute. reflexivity. Qed.
+End ExactNewlines.
+
+(* =========================================================================================== *)
+(* Compile-to-file = compile-in-memory (Story/StoryJson.v) *)
+(* =========================================================================================== *)
+From Coq Require Import String Ascii List Bool ZArith.
+From Bardic Require Import PyStr Value Compiled Codec JsonText JsonTextProofs Engine EngineCheck StoryJson StoryJsonProofs.
+Module FileRoundTrip.
+
+(* ---- C01: compile-to-file = compile-in-memory (Story/StoryJson.v, Proofs/StoryJsonProofs.v) ---- *)
+Import ListNotations.
+Local Open Scope string_scope.
+Local Open Scope list_scope.
+
+
+(* compile-to-file then load = compile in memory: the text written by json.dump(story, f, indent=2), read back by
+   json.load, is read by the engine as the same story *)
+Theorem compiled_file_reads_back : forall st, story_kdb st = true ->
+  exists j, loads (dumps_indent2 (story_to_json st)) = Some j /\ story_of_json j = Some st.
+Proof. exact StoryJsonProofs.compiled_file_reads_back. Qed.
+Print Assumptions compiled_file_reads_back.
+
+(* ... hence it plays identically: every operation history gives the same observations and views *)
+Theorem play_after_roundtrip : forall orc ctxkeys st v0 ops, story_kdb st = true ->
+  exists j st', loads (dumps_indent2 (story_to_json st)) = Some j /\ story_of_json j = Some st' /\
+                run_all orc ctxkeys st' v0 ops = run_all orc ctxkeys st v0 ops.
+Proof. exact StoryJsonProofs.play_after_roundtrip. Qed.
+Print Assumptions play_after_roundtrip.
+
+(* the same about the dict exactly as the compiler builds it (optional members and all): the engine model, given the
+   re-read file, plays what it plays on the in-memory dict *)
+Theorem play_after_roundtrip_dict : forall orc ctxkeys js v0 ops, jstory_kdb js = true ->
+  exists j st', loads (dumps_indent2 (jstory_to_json js)) = Some j /\ story_of_json j = Some st' /\
+                run_all orc ctxkeys st' v0 ops = run_all orc ctxkeys (forget js) v0 ops.
+Proof. exact StoryJsonProofs.play_after_roundtrip_dict. Qed.
+Print Assumptions play_after_roundtrip_dict.
+
+(* and about anything else computed from the story (graph, validator, browser engine model, ...) *)
+Theorem anything_after_roundtrip : forall (X : Type) (F : story -> X) st, story_kdb st = true ->
+  exists j st', loads (dumps_indent2 (story_to_json st)) = Some j /\ story_of_json j = Some st' /\ F st' = F st.
+Proof. exact StoryJsonProofs.anything_after_roundtrip. Qed.
+Print Assumptions anything_after_roundtrip.
+
+(* for ANY accepted JSON tree with distinct keys (the real dict: json_kdb is evaluated on it by the tie) the re-read
+   file is read as the in-memory dict is *)
+Theorem file_reads_as_memory : forall j, keys_distinct j ->
+  exists j', loads (dumps_indent2 j) = Some j' /\ jstory_of_json j' = jstory_of_json j /\ story_of_json j' = story_of_json j.
+Proof. exact StoryJsonProofs.file_reads_as_memory. Qed.
+Print Assumptions file_reads_as_memory.
+
+(* non-vacuity: the file of a small story, re-read, is that story (computed through the TEXT, not through the theorem) *)
+Example c01_file_demo :
+  let st := mkStory "S" [("S", mkPassage "S" [] [TText "x"; TExpr "a"] [Choice [TText "go"] "S" "" None true 0 [] []] [TPyStmt "a = 1"] [] [])] [] [] in
+  story_kdb st = true /\
+  option_map story_of_json (loads (dumps_indent2 (story_to_json st))) = Some (Some st).
+Proof. vm_compute. split; reflexivity. Qed.
+End FileRoundTrip.
